@@ -95,6 +95,7 @@ class Frame:
         self.tysub = {}
 
 
+_ARR_TY = re.compile(r"\[[^;\]]+; (\d+)\]$")
 VISITED = set()     # body paths interpreted (entry or inlined) in this process: coverage map of the term engine
 
 
@@ -424,6 +425,11 @@ class Interp:
             self.note(fr, "unmodelled expression kind %s" % k, e)
             return (mk("unknown", k, e.get("sp", "")), env)
         r = m(e, env, fr)
+        if r is not None and "[" in (e.get("ty") or ""):
+            # remember the static length of array-typed values (lets zip / fold / for unroll over opaque arrays)
+            m_ = _ARR_TY.match(strip_ref(e["ty"]))
+            if m_ and isinstance(r[0], Tm.T) and r[0].op not in ("array", "repeat"):
+                self.lengths.setdefault(r[0], int(m_.group(1)))
         if r is not None and "adj" in e:
             # auto-deref through an overloaded Deref (e.g. `&LAZY_STATIC` used where `&T` is expected)
             for a in e["adj"]:
